@@ -8,7 +8,8 @@ under check is applied to a scratch copy of the *current* /repo tree (outside /r
 
   * every seeded change of this property must still raise a violation of this property
     (unless it is listed in seeded/DECLINED.json with the reason it is out of reach);
-  * every stored refactoring must stay silent.
+  * every stored refactoring must stay silent (or, for the rewrites listed in refactors/REFUSED.json with the reason, be
+    answered with 'analysis broken', never with a violation).
 
 A change whose patch no longer applies to the current tree is reported as context-missing
 and counts for nothing.  Nothing is executed; this tests the checker, not rtrlib.  A missed
@@ -49,6 +50,8 @@ def _one(job):
             r["status"] = "alarm"
             r["rules"] = sorted({o["rule"] for o in fired})
             r["first"] = "%s %s at %s" % (fired[0]["rule"], fired[0]["instance"], fired[0]["where"])
+            if os.environ.get("VERIF_REPLAY_VERBOSE"):
+                r["all"] = ["%s %s at %s: %s" % (o["rule"], o["instance"], o["where"], o.get("detail", "")) for o in fired]
         else:
             r["status"] = "silent"
         return r
@@ -70,6 +73,8 @@ def run(ctx, prop):
     jobs = []
     sdir = os.path.join(VERIF, "seeded")
     declined = _declined()
+    rp = os.path.join(VERIF, "refactors", "REFUSED.json")
+    refused = json.load(open(rp)) if os.path.exists(rp) else {}
     for n in sorted(os.listdir(sdir)):
         p = os.path.join(sdir, n, "patch.diff")
         if n.startswith(prop + "-") and os.path.exists(p):
@@ -104,7 +109,14 @@ def run(ctx, prop):
             if r["status"] == "alarm":
                 bad.append("false alarm on behaviour-preserving refactoring %s: %s" % (r["id"], r["first"]))
             elif r["status"].startswith("analysis-"):
-                bad.append("refactoring %s breaks the analysis: %s" % (r["id"], r["status"]))
+                why = (refused.get(r["id"]) or {}).get(prop)
+                if why:
+                    # a rewrite of an anchored function into a form the rules were not written for: the check answers
+                    # 'analysis broken' (exit 2) for it, which is neither a pass nor an alarm
+                    r["status"] = "refused by design"
+                    r["reason"] = why
+                else:
+                    bad.append("refactoring %s breaks the analysis: %s" % (r["id"], r["status"]))
     sd = [r for r in outs if r["kind"] == "seeded"]
     rf = [r for r in outs if r["kind"] == "refactoring"]
     print("  stored changes: %d/%d seeded changes of %s detected (%d declined, %d refused, %d context-missing); "
